@@ -9,6 +9,7 @@ SC = c15.SC
 LX = c15.LX
 FUNCTIONS = [SC + "get_position", SC + "get_token", SC + "emit", SC + "next", SC + "_handle_line"] + [f for f in c15.FUNCTIONS if ".scanner_states." in f] + \
             ["a816.parse.parser_states." + n for n in ("parse_decl", "parse_opcode", "parse_operand_and_addressing", "parse_keyword", "parse_expression_list_inner", "parse_expression", "_parse_expression")] + \
+            [f for f in c15.PARSER_FUNCTIONS if f.split(".")[-1] not in ("parse_decl", "parse_opcode", "parse_operand_and_addressing", "parse_keyword", "parse_expression_list_inner", "parse_expression", "_parse_expression")] + \
             ["a816.parse.codegen." + n for n in ("_code_gen", "generate_opcode", "generate_db", "generate_dw", "generate_dl")] + \
             ["a816.parse.nodes." + n for n in ("OpcodeNode.emit", "ByteNode.emit", "WordNode.emit", "LongNode.emit", "ExpressionNode.get_value", "NodeError.__init__")]
 MIN_OBLIGATIONS = 40
@@ -22,9 +23,11 @@ EXPLANATION = ("Over a SYMBOLIC input, every lexer function is run from a well-f
                "(8 forms; scanner loops cut at invariants that pin the line bookkeeping to its closed form at the current position).  The parser/codegen hop is proved on the real parse_decl / _code_gen / emit for a token list made of an ARBITRARY prefix "
                "(any length, any tokens, any lines) followed by one statement with an undefined symbol (5 opcode operand shapes, .db/.dw/.dl/.pointer): the NodeError raised "
                "is attributed to a token on the statement's own line of the statement's own file.  File names of included files, the quoted line text and the "
-               "message format are the bounded part.")
+               "message format are the bounded part."
+               "  SYNTAX ERRORS ARE LOCATED: every parser state function, run on a token list of ARBITRARY length whose tokens all carry a position and which ends with its only EOF token (the scanner's output shape), raises ParserSyntaxError only with a token OF THE LIST -- never the position-less end marker Parser.current() makes up beyond the end -- and returns without having consumed the end marker (modular: callee contracts at call sites, loops cut at invariants; second contract of the parser functions, vf/contracts/c_parser.py parser_error_location_contract).")
 TRUSTED = ["vf/specs/lexmodel.py (checked get_position/get_token wrappers; sub-lexer contracts with line bookkeeping)"]
-ASSUMPTIONS = ["COMMENT tokens are excluded from the position clause on purpose (both comment forms consume the line end before the token is emitted; a COMMENT "
+ASSUMPTIONS = ["parser_error_location_contract: the token list has the scanner's output shape (every token has a position; exactly one EOF token, last, with empty text) -- assumed in the shape, exercised by the stand-ins; parse_opcode / parse_symbol_affectation / parse_keyword are entered on a token their caller has classified (call-site obligation, discharged at every call site reached)",
+               "COMMENT tokens are excluded from the position clause on purpose (both comment forms consume the line end before the token is emitted; a COMMENT "
                "never heads a statement and the parser drops it)",
                "composition (paper): line_offset <= start at the moment the position is taken + next()'s bookkeeping => line == number of line ends before the token and "
                "column == offset in that line",
@@ -238,6 +241,9 @@ def cases(E):
                 target=[SC + "scan", SC + "next", SC + "_handle_line", SC + "get_position", SC + "emit"]) for n in POSITIONED]
     cs += [Case(H + "positions_contract", n, shape_fn(n), target=[LX + n], timeout_ms=30000) for n in ["lex_initial"] + c15.SUBLEXERS]
     cs.append(Case(H + "next_line_bookkeeping_contract", "any input, any position", c15.shape_scanner, target=[SC + "next", SC + "_handle_line"]))
+    # a syntax error is reported through the trace of the token it carries: every parser function raises with a token OF THE LIST (which has the
+    # position the scanner gave it, see the position contracts above), never with the position-less end marker made up beyond the end of the list
+    cs += c15.parser_location_cases(E)
     return cs
 
 
